@@ -43,7 +43,7 @@ func (a *InstrHeader) MarshalBinary() (data []byte, err error) {
 }
 
 func (a *InstrHeader) UnmarshalBinary(data []byte) error {
-	if len(data) != 4 {
+	if len(data) < 4 {
 		return errors.New("Wrong size to unmarshal an InstrHeader message.")
 	}
 	a.Type = binary.BigEndian.Uint16(data[:2])
